@@ -14,6 +14,7 @@ This private submodule is *not* intended for importation by downstream callers.
 '''
 
 # ....................{ IMPORTS                            }....................
+from beartype.claw._package._clawpkgmake import make_conf_hookable
 from beartype.claw._package.clawpkgtrie import (
     remove_beartype_pathhook_unless_packages_trie)
 from beartype.typing import (
@@ -112,12 +113,21 @@ def beartyping(
     finally:
         # With a "beartype.claw"-specific thread-safe reentrant lock...
         with claw_lock:
-            # If the current global beartype configuration is still the passed
-            # beartype configuration, then the caller's body of the parent "with
-            # beartyping(...):" block has *NOT* itself called the beartype_all()
-            # function with a conflicting beartype configuration. In this
-            # case...
-            if claw_state.packages_trie_whitelist.conf_if_hooked == conf:
+            # Current global beartype configuration if any.
+            conf_curr = claw_state.packages_trie_whitelist.conf_if_hooked
+
+            # If the current global beartype configuration is still either
+            # unset (e.g., as the above call to beartype_all() raised an
+            # exception) *OR* the hookable variant of the passed beartype
+            # configuration registered by the above call to beartype_all(), then
+            # the caller's body of the parent "with beartyping(...):" block has
+            # *NOT* itself called the beartype_all() function with a conflicting
+            # beartype configuration. In this case...
+            #
+            # Note that beartype_all() registers the configuration returned by
+            # the make_conf_hookable() function rather than the passed
+            # configuration, which typically differ.
+            if conf_curr is None or conf_curr == make_conf_hookable(conf):
                 # Restore the prior global beartype configuration if any.
                 claw_state.packages_trie_whitelist.conf_if_hooked = (
                     packages_trie_conf_if_hooked_old)
